@@ -22,6 +22,75 @@ def main():
     simcheck.run_family(ck, "placements", scs, propcheck.c05, "C05", "placement", hyp=True)
     scs2 = [simgen.gen_scenario(rng, {"kinds": ["L"], "p_fok": 0.25, "no_remove": True, "p_remove": 0.0}) for _ in range(n // 2)]
     simcheck.run_family(ck, "general", scs2, propcheck.c05, "C05", "general", hyp=True)
+    # fill-or-kill orders priced behind the best price against 3-6 levels of closely spaced prices and small odd sizes, the limit within a
+    # penny or two of the true volume-weighted average of the first k levels (where an average carried in rounded form would decide differently)
+    P = simgen.TICKS_BP
+    scs3 = []
+    for _ in range(n // 2):
+        side = rng.choice(["BACK", "LAY"])
+        i0 = rng.randrange(8, len(P) - 8)
+        nlev = rng.randrange(3, 7)
+        idx = [i0 - k * rng.choice([1, 1, 2, 3]) for k in range(nlev)] if side == "BACK" else [i0 + k * rng.choice([1, 1, 2, 3]) for k in range(nlev)]
+        idx = sorted(set(max(1, min(len(P) - 2, x)) for x in idx), reverse=(side == "BACK"))
+        if len(idx) < 3:
+            idx = [i0, i0 - 1, i0 - 2] if side == "BACK" else [i0, i0 + 1, i0 + 2]
+        lad = [[P[x], rng.choice([100, 200, 300, 500, 700, 1100, 2000, 2300])] for x in idx]
+        k = rng.randrange(2, len(lad) + 1)
+        tot = sum(sz for _, sz in lad[:k])
+        vw = sum(p_ * sz for p_, sz in lad[:k]) / tot          # basis points
+        cand = [x for x in P if abs(x - vw) <= 300]
+        price = rng.choice(cand) if cand else lad[k - 1][0]
+        size = tot + rng.choice([0, 0, -100, 100])
+        t0 = 1_700_000_000_000
+        other = {"id": 2, "status": "ACTIVE", "adj": None, "atb": [[30000, 500]], "atl": [[31000, 500]], "trd": []}
+        r1 = {"id": 1, "status": "ACTIVE", "adj": None, "atb": lad if side == "BACK" else [[P[max(0, idx[0] - 4)], 500]], "atl": lad if side == "LAY" else [[P[min(len(P) - 1, idx[0] + 4)], 500]], "trd": []}
+        ups = [{"pt": t0 + 1000 * j, "status": "OPEN", "version": 1, "inplay": False, "bsp_rec": False, "delay": 0, "runners": [r1, other]} for j in range(3)]
+        mf = rng.choice([None, None, max(2, size // 2), max(2, size // 4)])
+        scs3.append({"config": {"place_latency": 0.12, "cancel_latency": 0.17, "update_latency": 0.15, "replace_latency": 0.28, "isolation": True},
+                     "clients": [{"bpe": True, "full_match": False, "limit": None, "min_val": False}], "strategies": [{"name": "s0", "client": 0}],
+                     "markets": [{"id": "1.100000001", "event": "20000001", "group": False, "type": "WIN", "bsp": False, "persist": True, "winners": 1, "updates": ups}],
+                     "script": [{"s": 0, "m": 0, "u": 0, "acts": [["place", 1, 1, side, {"t": "L", "p": price, "s": max(2, size), "pt": "LAPSE", "tif": "FILL_OR_KILL", "mf": mf}, {"mv": None}]]}]})
+    simcheck.run_family(ck, "fill_or_kill_average_over_many_levels", scs3, propcheck.c05, "C05", "fok-vwap")
+    # handicap markets: one selection id on several lines with different books, the 0.0 line not listed first: an order is matched against the book
+    # of ITS line (implementation + checker only: the model's books have one runner per selection)
+    hscs = []
+    for _ in range(40 if thorough else 12):
+        lines = [(5001, 50), (5001, 0), (5001, -50), (5002, 0), (5002, 100)]
+        rng.shuffle(lines)
+        if lines[0][1] == 0:
+            lines.append(lines.pop(0))
+        book = {ln: (P[4 + 5 * j], P[6 + 5 * j]) for j, ln in enumerate(lines)}     # (best back, best lay): distinct per line
+        t0 = 1_700_000_000_000
+        def hr():
+            return [{"id": sel, "hc": hc / 100, "status": "ACTIVE", "adj": None, "atb": [[book[(sel, hc)][0], 500]], "atl": [[book[(sel, hc)][1], 500]], "trd": []} for sel, hc in lines]
+        ups = [{"pt": t0 + 1000 * j, "status": "OPEN", "version": 1, "runners": hr()} for j in range(4)]
+        acts, exp = [], {}
+        for j, ln in enumerate(rng.sample(lines, 4)):
+            side = rng.choice(["BACK", "LAY"])
+            cross = rng.random() < 0.6
+            bb, bl = book[ln]
+            price = (bb if cross else P[P.index(bb) + 1]) if side == "BACK" else (bl if cross else P[P.index(bl) - 1])
+            acts.append(["place", j + 1, ln[0], side, {"t": "L", "p": price, "s": 200, "pt": "LAPSE", "tif": None, "mf": None}, {"mv": None, "hc": ln[1] / 100}])
+            exp["o%d" % (j + 1)] = (ln, side, price, cross, bb, bl)
+        hscs.append({"config": {"place_latency": 0.12, "cancel_latency": 0.17, "update_latency": 0.15, "replace_latency": 0.28, "isolation": True},
+                     "clients": [{"bpe": True, "full_match": False, "limit": None, "min_val": False}], "strategies": [{"name": "s0", "client": 0}],
+                     "markets": [{"id": "1.100000009", "event": "20000009", "group": False, "type": "ASIAN_HANDICAP", "bsp": False, "persist": True, "winners": 1, "updates": ups}],
+                     "script": [{"s": 0, "m": 0, "u": 0, "acts": acts}], "_exp": exp})
+    houts = run_impl_parallel("simlib", [{"scenarios": [simgen.to_impl({k: v for k, v in x.items() if not k.startswith("_")}) for x in ch], "observe": "all"} for ch in chunked(hscs, 8)], timeout=1800)
+    himpl = [r for o in houts for r in o["out"]]
+    hbad = []
+    for i, (sc, io) in enumerate(zip(hscs, himpl)):
+        if io.get("error"):
+            hbad.append((i, "the run aborted: %s" % str(io["error"])[:120])); continue
+        for o in io["final"]:
+            ln, side, price, cross, bb, bl = sc["_exp"][o["o"]]
+            want = [[(bb if side == "BACK" else bl) / 10000, 2.0]] if cross else []
+            got = [[f[1], f[2]] for f in o["frags"]]
+            if got != want:
+                hbad.append((i, "order %s (%s 2.00 @ %s on selection %s line %s, own book %s / %s) has fills %s, its own line's book gives %s" % (o["o"], side, price / 10000, ln[0], ln[1] / 100, bb / 10000, bl / 10000, got, want))); break
+    ck.family("handicap_lines_arrival_fills", len(hscs), len(hscs), [], sorted({i for i, _ in hbad}), dist={"orders": sum(len(x["_exp"]) for x in hscs), "lines_per_market": 5})
+    for i, why in hbad[:2]:
+        ck.fail("C05-own-line", "handicap market: " + why, {"scenario": {k: v for k, v in hscs[i].items() if not k.startswith("_")}})
     return ck.finish("scenarios on the real FlumineSimulation (books with 1-3 levels per side, gaps, empty sides; limit prices through/at/behind the best; sizes around what is offered; FILL_OR_KILL with min fill absent/below/equal/above the size; best-price execution on/off; full-match clients) compared observation by observation with the Coq model (both tie-breaks); independent Python checker of the property on the implementation's fragments; distinct = distinct scripts with fills or >2 packages")
 
 
